@@ -231,6 +231,7 @@ static void ArrayFreeze()
 {
 	ScriptFrame *vframe = ScriptFrame::GetCurrentFrame();
 	Array::Ptr self = static_cast<Array::Ptr>(vframe->Self);
+	REQUIRE_NOT_NULL(self);
 	self->Freeze();
 }
 
